@@ -200,7 +200,8 @@ class Run:
             else:
                 reported.append(v)
         wall = time.time() - self.t0
-        rdir = VERIF / "reports" / self.prop_id
+        selftest = bool(os.environ.get("VERIF_SELFTEST"))
+        rdir = VERIF / "reports" / (self.prop_id if not selftest else f"selftest_{self.prop_id}_{os.getpid()}")
         rdir.mkdir(parents=True, exist_ok=True)
         for old in rdir.glob("*.json"):
             old.unlink()
@@ -272,7 +273,12 @@ class Run:
         }
         edir = VERIF / "evidence"
         edir.mkdir(exist_ok=True)
-        (edir / f"{self.prop_id}.json").write_text(json.dumps(evidence, indent=1, default=str))
+        if not selftest:  # self-test runs analyse scratch copies: they must not overwrite the evidence
+            (edir / f"{self.prop_id}.json").write_text(json.dumps(evidence, indent=1, default=str))
+        else:
+            import shutil
+
+            shutil.rmtree(rdir, ignore_errors=True)
         if not self.quiet:
             print(
                 f"[{self.prop_id}] tier={self.tier} functions={len(self.functions)} "
